@@ -130,7 +130,7 @@ func c16CarCases(seed int64) []c16CarCase {
 		c16CarCase{Name: "big-sections-sha512", NTargets: 10, Opts: cargen.Opts{Epoch: 700, Seed: seed + 4, NSlots: 12, MaxEntries: 2, MaxTx: 3, BigOneIn: 3, RootSha512: true, RewardsOneIn: 3, MultiFrameOneIn: 2, MaxFrames: 60, LegacyFnvOneIn: 3}},
 		c16CarCase{Name: "empty-blocks-orphans", NTargets: 8, Opts: cargen.Opts{Epoch: 3, Seed: seed + 5, NSlots: 30, EmptyBlockOneIn: 2, MaxEntries: 2, MaxTx: 1, TinyOneIn: 2, TrailingJunkFrames: 3, LastSlot: true}},
 	)
-	nRandom := ev.Pick(5, 60)
+	nRandom := ev.Pick(14, 150)
 	epochs := []uint64{1, 7, 700, 0, 123}
 	for i := 0; i < nRandom; i++ {
 		o := cargen.Opts{
@@ -144,7 +144,7 @@ func c16CarCases(seed int64) []c16CarCase {
 			VoteOneIn: 4, FailOneIn: 5, V0OneIn: 4, SubsetEvery: []int{0, 1, 7}[rng.Intn(3)],
 			TrailingJunkFrames: []int{0, 0, 2}[rng.Intn(3)],
 		}
-		cs = append(cs, c16CarCase{Name: fmt.Sprintf("rand-%d", i), Opts: o, NTargets: ev.Pick(6, 7)})
+		cs = append(cs, c16CarCase{Name: fmt.Sprintf("rand-%d", i), Opts: o, NTargets: ev.Pick(7, 8)})
 	}
 	if ev.Thorough() {
 		// more blocks than the per-piece link limit (432000/18 = 24000): a new piece is forced by the limit
@@ -167,6 +167,7 @@ type c16Expected struct {
 	secs      []cargen.Section // expected sequence: all sections of all families, original order
 	fams      []c16Family
 	orphans   int // sections after the last block that belong to no block (not demanded by the statement)
+	orphanCid map[string]bool
 	byCid     map[string]int
 }
 
@@ -175,7 +176,7 @@ func c16Expect(m *cargen.Model) (*c16Expected, error) {
 	if err != nil {
 		return nil, err
 	}
-	e := &c16Expected{fileBytes: b, byCid: map[string]int{}}
+	e := &c16Expected{fileBytes: b, byCid: map[string]int{}, orphanCid: map[string]bool{}}
 	start := 0
 	var bytesAcc int64
 	bi := 0
@@ -196,6 +197,9 @@ func c16Expect(m *cargen.Model) (*c16Expected, error) {
 		}
 	}
 	e.orphans = len(e.secs) - start
+	for _, s := range e.secs[start:] {
+		e.orphanCid[s.Cid.KeyString()] = true
+	}
 	e.secs = e.secs[:start]
 	for i, s := range e.secs {
 		e.byCid[s.Cid.KeyString()] = i
@@ -470,8 +474,13 @@ compare:
 				idx++
 				continue
 			}
-			ok = false
 			j, known := exp.byCid[s.Cid.KeyString()]
+			if !known && exp.orphanCid[s.Cid.KeyString()] {
+				// an object of the original that belongs to no block: the statement neither demands nor forbids it
+				rec.Count("diag_orphan_section_written", 1)
+				continue
+			}
+			ok = false
 			switch {
 			case !known:
 				c16Vio(rec, "split-car/foreign-section", fmt.Sprintf("%s: piece %d contains section %s (kind %d) that is no object of any block of the original", where, pi+1, s.Cid, k), sc)
